@@ -143,11 +143,16 @@ pub fn programs_for(family: &str, tier: &str) -> Vec<Program> {
                 for i in 0..calls.len() {
                     for j in i..calls.len() {
                         v.push(Program { family: "L07", multi: false, ticker: false, share, threads: vec![vec![calls[i]], vec![calls[j]]] });
-                        v.push(Program { family: "L07", multi: false, ticker: false, share, threads: vec![vec![calls[i], calls[j]], vec![calls[j], calls[i]]] });
+                        if thorough || (i == 0 && j == 2) || (i == 1 && j == 3) {
+                            v.push(Program { family: "L07", multi: false, ticker: false, share, threads: vec![vec![calls[i], calls[j]], vec![calls[j], calls[i]]] });
+                        }
                     }
                 }
                 // three threads
-                for &(a, b, c) in &[(Call::Inc(1), Call::Inc(2), Call::Inc(4)), (Call::Inc(1), Call::Dec(1), Call::Inc(u64::MAX)), (Call::Dec(2), Call::Dec(3), Call::Inc(7))] {
+                for (n3, &(a, b, c)) in [(Call::Inc(1), Call::Dec(1), Call::Inc(u64::MAX)), (Call::Inc(1), Call::Inc(2), Call::Inc(4)), (Call::Dec(2), Call::Dec(3), Call::Inc(7))].iter().enumerate() {
+                    if !thorough && n3 > 0 {
+                        continue;
+                    }
                     v.push(Program { family: "L07", multi: false, ticker: false, share, threads: vec![vec![a], vec![b], vec![c]] });
                     if thorough {
                         v.push(Program { family: "L07", multi: false, ticker: false, share, threads: vec![vec![a, b], vec![b, c], vec![c, a]] });
